@@ -828,6 +828,7 @@ def build(recipe, registry=None, _path=()):
             kw.update(tlcorner="", lline="", blcorner="")
         if "r" in off:
             kw.update(trcorner="", rline="", brcorner="")
+        kw.update(r.get("lines") or {})  # optional {"tline": ..., "lline": ...} (directed cases only; the generator never sets it)
         w = urwid.LineBox(kids[0], r["title"], r["title_align"], **kw)
     elif t == "BoxAdapter":
         w = urwid.BoxAdapter(kids[0], r["height"])
@@ -1099,6 +1100,7 @@ def to_code(r):
             kw.update(tlcorner="", lline="", blcorner="")
         if "r" in off:
             kw.update(trcorner="", rline="", brcorner="")
+        kw.update(r.get("lines") or {})
         extra = "".join(f", {a}={v!r}" for a, v in kw.items())
         return f"{u}LineBox({k[0]}, {r['title']!r}, {r['title_align']!r}{extra})"
     if t == "BoxAdapter":
